@@ -8750,7 +8750,10 @@ let is_abstract_truthy f =
   | VNone -> false
   | VBool b -> b
   | VInt z0 -> negb (Z.eqb z0 Z0)
-  | VFloat r -> negb (eqb0 r ('0'::('.'::('0'::[]))))
+  | VFloat r ->
+    negb
+      ((||) (eqb0 r ('0'::('.'::('0'::[]))))
+        (eqb0 r ('-'::('0'::('.'::('0'::[]))))))
   | VStr s -> negb (eqb0 s [])
   | VList l -> negb (Nat.eqb (length l) O)
   | VMap kv -> negb (Nat.eqb (length kv) O)
